@@ -847,6 +847,9 @@ FAMILY = [
      "def f(p: P): pass",
      "f({'x': 1, 'y': 2, 'z': 3})",
      "p: P = {'q': 1, 'r': 2}"],
+    ["def two(x, y) -> int:\n  if x:\n    print('a')\n  elif y:\n    print('b')",
+     "def three(x, y, z) -> str:\n  if x:\n    print('a')\n  elif y:\n    print('b')\n  elif z:\n    print('c')",
+     "def one(x) -> int:\n  if x:\n    return 1\n  print(x)"],
     ["import lib",
      "def a1(x: lib.Alpha, y: lib.Beta) -> lib.Gamma:\n  return lib.Gamma()",
      "def a2(x: lib.Delta) -> lib.Epsilon:\n  return lib.Epsilon()",
@@ -1000,7 +1003,7 @@ def k2_matrix(res, rng, tier, disagreements):
   all_progs = {"P%03d" % i: (FAMILY[i] if i < len(FAMILY) else gen_program(rng)) for i in range(n_prog)}
   # the unrelated analyses that precede a target include modules that use typing members and TypeVars, so that
   # state surviving in the printer / loader / visitors between analyses has something to carry over
-  unrelated = [prog_text(gen_program(rng, 5)) for _ in range(8)] + [prog_text(FAMILY[6]), prog_text(FAMILY[2]),
+  unrelated = [prog_text(gen_program(rng, 5)) for _ in range(8)] + [prog_text(FAMILY[7]), prog_text(FAMILY[2]),
                                                                    prog_text(FAMILY[1]), prog_text(FAMILY[0])]
   rng.shuffle(unrelated)
   t0 = time.time()
@@ -1040,6 +1043,15 @@ def k2_matrix(res, rng, tier, disagreements):
                           "config_a": cfgs[0], "config_b": cfgs[-1],
                           "note": "io.generate_pyi_ast returned a tree that CanonicalOrdering still changes "
                                   "(the pipeline model emits canon(...), a fixpoint by canon_idem)"})
+  # "Reported errors are unique and sorted by position", on the real report of every analysis of the matrix
+  for p in sorted(progs):
+    for cfg, r in sorted(table[p].items()):
+      errs = [tuple(e) for e in (r.get("errors") or [])]
+      pos = [(e[3], e[1]) for e in errs]
+      if len(set(errs)) != len(errs) or pos != sorted(pos):
+        disagreements.append({"kind": "report-not-unique-or-not-sorted", "program": p, "chunks": progs[p], "config_a": cfg,
+                              "config_b": cfg, "errors": [list(e) for e in errs][:12]})
+        break
   recs = [table[p][sorted(table[p])[0]] for p in sorted(progs)]
   n_err = [len(r.get("errors") or []) for r in recs]
   same_line = sum(1 for r in recs if len({e[1] for e in (r.get("errors") or [])}) < len(r.get("errors") or []))
